@@ -45,7 +45,7 @@ def run(prop, tier):
     try:
         chunks = 8 if q else 16
         stride = 997 if q else 41
-        kinds = 8
+        kinds = 9
         out = os.path.join(wd, "faults")
         args = ["--chunks", str(chunks), "--stride", str(stride), "--exhaustive_below", "9000" if q else "40000"]
         C.run_driver(exe, "faults", kinds * chunks, out, args=args, chunk=1, env_extra={"ASAN_OPTIONS": C.SAN_ENV["ASAN_OPTIONS"]})
